@@ -99,6 +99,8 @@ class VTUWriter:
         self, parent: XMLElement, name: str, values: Sequence | Array, num_components: int | None = None
     ) -> XMLElement:
         values = make_array(values)
+        if not values.dtype.isnative:  # e.g. data read from a file with different endianness; we write in native byte order
+            values = values.astype(values.dtype.newbyteorder("="))
         ncomps = self._array_num_components(values) if num_components is None else num_components
         elem = SubElement(
             parent,
